@@ -45,20 +45,34 @@ def caller_names():
     return _NAMES
 
 
+HOSTILE_CORE = ("mod core { pub mod str { pub const fn from_utf8(_: &[u8]) -> Result<&'static str, ()> { Ok(\"caller's core::str::from_utf8\") } } "
+                "pub mod mem { pub use ::core::mem::*; } pub mod ptr { pub use ::core::ptr::*; } }")
+
+
 def gen(rng, i):
     g = gen_plain(rng, i)
     decl, ty, kexpr, oexpr, nt, desc = g
-    if rng.random() < 0.35:
+    if desc["kind"] in ("from_iter", "concat_str", "concat_char", "join") and rng.random() < 0.25:
+        # the calling scope has a module of its own that is called `core` (a path written as `core::..` inside a macro
+        # body resolves there)
+        decl = decl + " " + HOSTILE_CORE
+        desc = dict(desc, caller_has_mod_core=True)
+    if rng.random() < 0.35 or (desc.get("elem", "").startswith("[u8;") and rng.random() < 0.8):
         # rename the caller's constants (P<i>, S<i>, N<i>) to names that konst's own macro bodies use for their items
         import re
         pool = list(caller_names())
         rng.shuffle(pool)
+        if desc.get("elem", "").startswith("[u8;"):
+            # prefer the names of the items that the invoked macro itself declares next to the pasted element type
+            own = [x for x in ("LEN", "CONC") if x in pool]
+            rng.shuffle(own)
+            pool = [x for x in pool if x not in own] + own
         used = []
         for stem in ("P%d" % i, "S%d" % i, "N%d" % i):
             if re.search(r"\b%s\b" % stem, decl) and pool:
                 name = pool.pop()
                 used.append(name)
-                decl, kexpr, oexpr = (re.sub(r"\b%s\b" % stem, name, t) for t in (decl, kexpr, oexpr))
+                decl, kexpr, oexpr, ty = (re.sub(r"\b%s\b" % stem, name, t) for t in (decl, kexpr, oexpr, ty))
         if used:
             desc = dict(desc, caller_const_names=used)
             nt = True
@@ -177,11 +191,14 @@ def gen_plain(rng, i):
             oexpr = "(%s as [&str; %d]).iter().enumerate().filter(|(i, _)| *i %% 2 == 0).map(|(_, s)| *s).collect::<String>()" % (arr, n)
         return "", "&str", kexpr, oexpr, nt or v in (1, 4), {"kind": kind, "variant": v, "pieces": pieces}
     # slice_concat
-    ety = rng.choice(["u8", "u16", "&str", "char", "*const u8", "P"])
+    ety = rng.choice(["u8", "u16", "&str", "char", "*const u8", "P", "[u8; N%d]" % i])
     inner = []
     for p in pieces:
         m = rng.randint(0, 3)
-        if ety in ("u8", "u16"):
+        if ety.startswith("[u8;"):
+            # the element type mentions a constant of the caller (which `gen` may rename to a name konst's macros use)
+            inner.append(["[%d, %d]" % (rng.randint(0, 255), rng.randint(0, 255)) for _ in range(m)])
+        elif ety in ("u8", "u16"):
             inner.append([str(rng.randint(0, 255 if ety == "u8" else 65535)) for _ in range(m)])
         elif ety == "*const u8":
             # Copy but neither Send nor Sync: the macro documents `T: Copy` and nothing else
@@ -202,6 +219,9 @@ def gen_plain(rng, i):
         return pdecl, "&[P]", kexpr, oexpr, nt, {"kind": "slice_concat", "elem": ety, "inner": inner}
     kexpr = "&konst::slice::slice_concat!(%s, &%s)" % (ety, arr)
     oexpr = "({ let x: [&[%s]; %d] = %s; x }).concat()" % (ety, len(inner), arr)
+    if ety.startswith("[u8;"):
+        nt = len(inner) >= 2
+        return "const N%d: usize = 2;" % i, "&[%s]" % ety, kexpr, oexpr, nt, {"kind": "slice_concat", "elem": ety, "inner": inner}
     if ety == "*const u8":
         oexpr = "{ let x: Vec<Vec<*const u8>> = vec![%s]; x.concat() }" % ", ".join("vec![%s]" % ", ".join(x) for x in inner)
     nt = len(inner) >= 2 and any(len(x) == 0 for x in inner) and any(len(x) > 0 for x in inner)
@@ -232,6 +252,11 @@ def fixed_cases():
     out.append(("", "&str", "konst::string::str_join!(\"😀\", &[\"\", \"\", \"\"])", "[\"\", \"\", \"\"].join(\"😀\")", True, {"kind": "join", "form": "all_empty_pieces"}))
     out.append(("", "&[u8]", "&konst::slice::slice_concat!(u8, &[])", "Vec::<u8>::new()", True, {"kind": "slice_concat", "form": "empty"}))
     out.append(("", "&[u8]", "&konst::slice::slice_concat!(u8, &[&[], &[]])", "Vec::<u8>::new()", True, {"kind": "slice_concat", "form": "only_empty_inner"}))
+    # zero-sized elements: total lengths up to usize::MAX are representable, one more is not (std: "capacity overflow")
+    # (totals that fit cannot be evaluated either: copying 2^64 zero-sized elements trips rustc's long_running_const_eval)
+    for a, b in (("usize::MAX", "1"), ("usize::MAX / 2 + 1", "usize::MAX / 2 + 1"), ("usize::MAX", "usize::MAX")):
+        out.append(("", "(usize,)", "(konst::slice::slice_concat!((), &[&[(); %s], &[(); %s]]).len(),)" % (a, b), "(0usize,)", True,
+                    {"kind": "slice_concat", "form": "length_overflow", "lengths": [a, b], "expect": "reject"}))
     return out
 
 
@@ -241,6 +266,18 @@ def run(prop, tier, seed, out, timeout, **kw):
     n = 800 if tier == "quick" else 6000
     gens = fixed_cases() + [gen(rng, i) for i in range(n)]
     violations = []
+    # programs whose total length does not fit in usize: evaluating them to any array is wrong, they must be rejected
+    # (a panic during const evaluation)
+    must_reject = [g for g in gens if g[5].get("expect") == "reject"]
+    gens = [g for g in gens if g[5].get("expect") != "reject"]
+    if must_reject:
+        ok, outp = driver.build_lib()
+        if not ok:
+            return 2, "[gen_concat] konst does not build:\n" + outp[-3000:]
+        fulls = [single(g)[0] for g in must_reject]
+        for g, (rcv, msg), full in zip(must_reject, driver.rustc_verdicts(fulls), fulls):
+            if rcv == 0:
+                violations.append((g[5], ["the total length overflows usize, yet the macro evaluated to an array (std: capacity overflow panic)"], full))
     per = 400
     evaluations = 0
     for b in range(0, len(gens), per):
@@ -273,6 +310,7 @@ def run(prop, tier, seed, out, timeout, **kw):
             if line.startswith("FAIL "):
                 i = int(line.split()[1])
                 violations.append((chunk[i][5], [line], single(chunk[i])[0]))
+    gens = gens + must_reject
     nontriv = {json.dumps(g[5], sort_keys=True, ensure_ascii=False) for g in gens if g[4]}
     labels = {}
     for g in gens:
